@@ -384,6 +384,8 @@ class ProjectConfig:
                 ]
         except Exception as e:
             logger.error(e)
+            # There is no facet to return; the caller reports the file as malformed
+            raise ValueError(f"malformed facet {unparsed_facet!r}: {e}") from e
 
         return facet
 
@@ -408,6 +410,21 @@ class ProjectConfig:
             diagnostics.append(CannotOpenFile(path, str(err), 0))
         except LoadError as err:
             diagnostics.append(UnmarshallingError(str(err), 0))
+        except OSError as err:
+            diagnostics.append(CannotOpenFile(path, str(err), 0))
+        except (
+            tomli.TOMLDecodeError,
+            UnicodeDecodeError,
+            KeyError,
+            TypeError,
+            ValueError,
+            AttributeError,
+        ) as err:
+            # Not TOML, no "facets" table, or entries of the wrong shape
+            validated_facets = []
+            diagnostics.append(
+                UnmarshallingError(f"Malformed facets file {path.name}: {err}", 0)
+            )
         return validated_facets, diagnostics
 
     @staticmethod
